@@ -10,8 +10,8 @@ TRUSTED_BASE = ['pyvc VC generator', 'z3 5.1', 'cvc5 1.0.3 (only for queries z3 
 PROPS = {
     'C04': dict(
         level='proof',
-        contracts=['C04', 'body_read', 'body_access', 'reqobj', 'config'],
-        frames=[],
+        contracts=['C04', 'body_read', 'body_access', 'reqobj', 'config', 'cachein'],
+        frames=['cache_keys'],
         technique='deductive: loop-invariant VCs generated from the real AST of _iter_body/_body_read/_body/body, discharged by z3/cvc5; '
                   'bounded run-time contract check as replay harness',
         explanation='VCs over the real source of the Content-Length reader: invariant (delivered++stream == stream0, '
@@ -42,7 +42,7 @@ PROPS = {
     ),
     'C13': dict(
         level='proof',
-        contracts=['body_read', 'C04', 'C05', 'C12', 'fieldstorage', 'body_access', 'config'],
+        contracts=['body_read', 'C04', 'C05', 'C12', 'fieldstorage', 'body_access', 'config', 'reqobj'],
         frames=['errors_map_const'],
         technique='deductive: loop-invariant VCs from the real AST of _body_read (limit, spooling, content) on top of the proved '
                   'generator contracts of _iter_body/_iter_chunked (part size <= buffer); bounded run-time check as replay harness',
@@ -58,7 +58,7 @@ PROPS = {
     'C14': dict(
         level='proof',
         contracts=['C14', 'C03', 'headerlist', 'copies'],
-        frames=['codec_lemma'],
+        frames=['codec_lemma', 'header_store'],
         technique='deductive: VCs from the real AST of _hval, HeaderDict.__setitem__/append/setdefault, HeaderProperty.__set__, '
                   'BaseResponse.__init__ (data-structure invariant Clean(dict)) and of BaseResponse.headerlist (comprehensions executed on a '
                   'generic element: filter, inner iterable and emitted pair compared pointwise with the specification; cookie loop with '
@@ -161,8 +161,8 @@ PROPS = {
     ),
     'C18': dict(
         level='proof',
-        contracts=['C18', 'C12', 'collect', 'reqobj'],
-        frames=[],
+        contracts=['C18', 'C12', 'collect', 'reqobj', 'cachein', 'getters'],
+        frames=['cache_keys'],
         technique='deductive: loop-invariant VCs (three nested loops, cut lemmas) from the real AST of parse_qsl over z3 strings, '
                   'z3 then cvc5; bounded check of list promotion and of the encode->parse round trip as replay harness',
         explanation='parse_qsl never raises and terminates (variant L - i); every outer iteration starts at a segment start and consumes '
@@ -176,7 +176,7 @@ PROPS = {
         trusted_base=['urllib.parse.unquote total', 'uniqueness of the decomposition of a string into &-segments (meta-argument)'],
     ),
     'C03': dict(
-        level='other', contracts=['C03', 'wsgi', 'cast'], frames=['exc_classes'],
+        level='other', contracts=['C03', 'wsgi', 'cast', 'static_file', 'C17'], frames=['exc_classes'],
         technique='bounded run-time contract check: independent PEP 3333 validator as postcondition of Ombott.__call__ over an enumerated '
                   'space of handler programs x methods x statuses x hook configurations',
         explanation='BOUNDED: exhaustive product of handler programs (coverage.bounded). PROVED per function: wsgi (one start_response after '
@@ -217,7 +217,7 @@ PROPS = {
         level_note='History length and request kinds are stated in coverage.bounded.bound.',
     ),
     'C10': dict(
-        level='proof', contracts=['C10', 'C03', 'C02', 'wsgi', 'reqobj', 'copies'], frames=['confinement'],
+        level='proof', contracts=['C10', 'C03', 'C02', 'wsgi', 'reqobj', 'copies', 'cachein'], frames=['confinement', 'cache_keys'],
         technique='deductive: heap-model VCs from the real AST of the ts_props accessors (fget/fset/fdel) and of the wrapped __init__ '
                   '(ownership: an accessor touches only the store of the instance it is called on; init writes nothing but its own instance '
                   'and its own store; no nonlocal/global write), and of HTTPResponse.apply (no aliasing of long-lived objects); bounded '
@@ -286,7 +286,7 @@ PROPS = {
         level_note='Bounds are stated in coverage.bounded.bound.',
     ),
     'C07': dict(
-        level='other', contracts=['C07', 'collect', 'C06', 'config'], frames=['class_attrs'],
+        level='other', contracts=['C07', 'collect', 'C06', 'config', 'getters'], frames=['class_attrs'],
         technique='bounded run-time contract check: encode (independent RFC 7578 encoder) -> POST through Ombott.__call__ -> compare forms/files',
         explanation='BOUNDED field lists, names, contents, boundaries, thresholds and framings; proved: BytesIOProxy read/seek/tell stay inside the '
                     'window [_st,_end) of the buffered body (no byte of another part) and return exactly the window slice; _collect_multipart puts every '
@@ -299,7 +299,7 @@ PROPS = {
         level_note='Bounds are stated in coverage.bounded.bound.',
     ),
     'C12': dict(
-        level='other', contracts=['C05', 'body_read', 'C18', 'C12', 'fieldstorage', 'body_access', 'C03', 'collect', 'config', 'C06'], frames=['errors_map_const', 'exc_classes'],
+        level='other', contracts=['C05', 'body_read', 'C18', 'C12', 'fieldstorage', 'body_access', 'C03', 'collect', 'config', 'C06', 'getters', 'reqobj'], frames=['errors_map_const', 'exc_classes'],
         technique='bounded run-time contract check of grammar-mutated bodies through Ombott.__call__ (status class, delivered fields complete); '
                   'proved exception frames of _iter_chunked, _body_read, _body, _raise, _get_body_string, json, POST, FieldStorage.read; termination of the readers and of parse_qsl',
         explanation='BOUNDED grammar mutations, truncations, byte mutations, small-scope bodies; proved: _iter_chunked raises only BodyParsingError, '
